@@ -106,6 +106,11 @@ class SchedPool(object):
         self.sched.ev(ev="PoolNew", w=nproc)
         # the size the real pool would have: decides how map() cuts its task list into chunks
         self.nproc = nproc or os.cpu_count() or 1
+        # workers are forked NOW and keep the working directory of this moment (spec/PoolEnv.tla): tasks run with it
+        try:
+            self.fork_cwd = os.getcwd()
+        except OSError:
+            self.fork_cwd = None
 
     # context manager / lifecycle
     def __enter__(self):
@@ -152,11 +157,21 @@ class SchedPool(object):
         for k in order:
             arg = tasks[k - 1]
             self.sched.ev(ev="Start", call=c, k=k)
+            here = None
+            try:
+                if self.fork_cwd is not None and os.getcwd() != self.fork_cwd:
+                    here = os.getcwd()
+                    os.chdir(self.fork_cwd)       # the worker's directory, not the caller's
+            except OSError:
+                here = None
             try:
                 r = fun(arg)
                 res[k - 1] = _roundtrip(r) if self.sched.copy else r
             except Exception as e:  # transported to the parent like a real pool does
                 exc[k - 1] = e
+            finally:
+                if here is not None:
+                    os.chdir(here)
             self.sched.ev(ev="Finish", call=c, k=k, ok=exc[k - 1] is None)
         return c, order, res, exc
 
